@@ -235,7 +235,7 @@ def oracle(frags, dove_safe):
 
 
 # ---- driving the real code ------------------------------------------------------------------------
-def real_consensus(frags, dove_safe, single_as_pair=True):
+def real_consensus(frags, dove_safe, single_as_pair=True, prior_queries=False):
     """Build a fresh Molecule by adding the fragments in the given order; return {pos: base} or raise."""
     from singlecellmultiomics.molecule import Molecule
     from singlecellmultiomics.fragment import Fragment
@@ -247,6 +247,14 @@ def real_consensus(frags, dove_safe, single_as_pair=True):
             raise HarnessError(f'fragment {i} was not accepted into the molecule: {fd}')
     if len(mol) != len(frags):
         raise HarnessError('molecule size differs from the number of fragments added')
+    if prior_queries:
+        # history: the same molecule was asked before with other arguments (a filter that removes every call, and the other
+        # dove_safe setting); answers to earlier questions must not leak into this one
+        for kw in ({'min_phred_score': Q_HI + 5}, {'dove_safe': not dove_safe}, {'min_phred_score': Q_HI + 5, 'dove_safe': dove_safe}):
+            try:
+                mol.get_consensus(**kw)
+            except Exception:
+                pass
     res = mol.get_consensus(dove_safe=True) if dove_safe else mol.get_consensus()
     out = {}
     for key, base in res.items():
@@ -262,10 +270,10 @@ def _canon(d):
     return sorted((str(k), v) for k, v in d.items())
 
 
-def _run(frags, dove_safe, site, single_as_pair=True):
+def _run(frags, dove_safe, site, single_as_pair=True, prior_queries=False):
     """-> (result dict | None, [(signature, detail)])"""
     try:
-        return real_consensus(frags, dove_safe, single_as_pair), []
+        return real_consensus(frags, dove_safe, single_as_pair, prior_queries), []
     except HarnessError:
         raise
     except Exception as ex:
@@ -338,7 +346,10 @@ def check_case(case, base_result=None):
                 viols.append((f'{site}:doubling-changes-consensus', {'plain': _canon(base_result), 'doubled': _canon(got)}))
             viols += _compare(got, want, {p: {b: 2 * n for b, n in v_.items()} for p, v_ in votes.items()}, site + ':doubled')
     else:
-        got, v = _run(frags, dove, site, sap)
+        pq = bool(case.get('prior_queries'))
+        if pq:
+            site += ':after-other-queries'
+        got, v = _run(frags, dove, site, sap, prior_queries=pq)
         execs += 1
         viols += v
         if got is not None:
@@ -459,6 +470,9 @@ def _run_pos_multiset(ms, acc):
         case = {'level': 'pos', 'word': list(ms), 'double': how}
         viols, info = check_case(case, base_result=base)
         _report(acc, case, viols, info, states=0)
+    case = {'level': 'pos', 'word': list(ms), 'prior_queries': True}
+    viols, info = check_case(case, base_result=None)
+    _report(acc, case, viols, info, states=0)
 
 
 def _report(acc, case, viols, info, states=1):
